@@ -8,7 +8,7 @@ use crate::script::*;
 /// left in the library (a cache in a static, say).
 pub fn fails_in_process(s: &Script, class: &str) -> Option<usize> {
     let mut st = Stats::default();
-    let opts = ExecOpts { crosscheck: false, collect_samples: false, lean: false, run: u64::MAX };
+    let opts = ExecOpts { crosscheck: false, collect_samples: false, lean: false, run: u64::MAX, process_offset: crate::clock::process_offset() };
     match run_script(s, &mut st, &opts).0 {
         Some(v) if v.class == class => Some(v.op_index),
         _ => None,
